@@ -853,7 +853,7 @@ Proof. intros [c|]; simpl; [|reflexivity]. destruct (ch_e2e c); [apply e2e_unmar
 Lemma decode_e2e_topic_ok : forall pt, decode_e2e_topic pt = Ok tt.
 Proof.
   intros [t|]; simpl; [|reflexivity].
-  assert ((match tp_e2e t with Some ps => e2e_unmarshal ps | None => Ok tt end) = Ok tt) as H.
+  assert ((match tp_e2e t with Some e => e2e_unmarshal (map is_nil (e_pcts e)) | None => Ok tt end) = Ok tt) as H.
   { destruct (tp_e2e t); [apply e2e_unmarshal_ok|reflexivity]. }
   rewrite H. simpl.
   induction (tp_chans t) as [|c l IH]; simpl. reflexivity. rewrite decode_e2e_chan_ok. simpl. exact IH.
